@@ -5,8 +5,9 @@
     harness generates dyadic set-ups whose float arithmetic is exact).
 
     Case layout (a rational = numerator, denominator):
-      start stop dt rev period cont  dtdx(2) lo(2) hi(2) life  ncls cfac(2)*ncls  nland cell*nland
+      start stop dt rev period cont adv  dtdx(2) lo(2) hi(2) life  ncls cfac(2)*ncls  nland cell*nland
                                           -- cont = continuous-release frequency in seconds, 0 = discrete release
+                                          -- adv = advection scheme of the tracker: 0 = EF, 1 = RK2, 2 = RK4
                                           -- the land cells along the particle line (whole land columns of the grid)
       nfiles { nrec { time u(2) scalar(2) }*nrec }*nfiles
       nrows { time mult tag xcode class }*nrows            -- x = xcode / 1024
@@ -85,7 +86,7 @@ Fixpoint check_recs (rs : list (rec pv)) (l : list Z) : option (list Z) :=
 
 Definition parse_setup (c : list Z) : option (setup * list Z) :=
   match c with
-  | st :: sp :: d :: rv :: per :: cf0 :: dn :: dd :: lon :: lod :: hin :: hid :: life :: ncls :: r =>
+  | st :: sp :: d :: rv :: per :: cf0 :: ad :: dn :: dd :: lon :: lod :: hin :: hid :: life :: ncls :: r =>
       let '(cf, r0) := p_qs (Z.to_nat ncls) r in
       match r0 with
       | nland :: r0' =>
@@ -100,7 +101,7 @@ Definition parse_setup (c : list Z) : option (setup * list Z) :=
                        s_files := files; s_tab := rows;
                        s_cont := (if cf0 =? 0 then None else Some cf0); s_period := per; s_dtdx := mkQ dn dd;
                        s_lo := mkQ lon lod; s_hi := mkQ hin hid; s_life := life; s_cfac := cf;
-                       s_land := land |}, r5)
+                       s_land := land; s_adv := ad |}, r5)
           | [] => None
           end
       | [] => None
